@@ -9,8 +9,10 @@ import Cinco.Basic.Tree
       def _render_nested(self, held, basic, virtual, sensitive_mask):
           if isinstance(held, Config):
               return held.to_tree(virtual=virtual, sensitive_mask=sensitive_mask)
-          if isinstance(held, (list, tuple)) and isinstance(basic, list) and len(held) == len(basic):
-              return [self._render_nested(item, rendered, ...) for item, rendered in zip(held, basic)]
+          if isinstance(held, (list, tuple)) and isinstance(basic, (list, tuple)) and len(held) == len(basic):
+              return type(basic)(self._render_nested(item, rendered, ...) for item, rendered in zip(held, basic))
+              # (F77: a tuple that an untyped field hands back as it is is walked like a list and stays a tuple;
+              #  `Tree.list` stands for both)
           if isinstance(held, dict) and isinstance(basic, dict) and len(held) == len(basic):
               return {key: self._render_nested(item, rendered, ...)
                       for item, (key, rendered) in zip(held.values(), basic.items())}
